@@ -20,7 +20,11 @@ prop = meta["property"]
 if "--prop" in sys.argv:
     prop = sys.argv[sys.argv.index("--prop") + 1]
 env = dict(os.environ, GOFLAGS="-mod=mod", GOPROXY="off", GOSUMDB="off", GOTOOLCHAIN="local")
-wt = "/tmp/seedchk-%s-%d" % (os.path.basename(d), os.getpid())
+# a fixed path per slot keeps the Go build cache effective (the cache key includes the directory)
+wt = "/tmp/verifchk-slot%s" % os.environ.get("VERIF_SLOT", "0")
+subprocess.run("git -C /repo worktree remove --force %s" % wt, shell=True, stdout=subprocess.DEVNULL, stderr=subprocess.DEVNULL)
+shutil_rm = __import__("shutil").rmtree
+shutil_rm(wt, ignore_errors=True)
 def sh(cmd, cwd=None, timeout=3600, extra=None):
     e = dict(env); e.update(extra or {})
     p = subprocess.run(cmd, shell=True, cwd=cwd, env=e, stdout=subprocess.PIPE, stderr=subprocess.STDOUT, text=True, timeout=timeout)
